@@ -386,6 +386,25 @@ package rlwe
 //@   ensures result == nr - 1
 //@   ensures cong(result * result, 1, nr) by cong_intro((nr-1)*(nr-1), 1, nr - 2, nr)
 
+// The discrete logarithm: for every Galois element g = 5^kk (mod NthRoot) with kk in
+// [0, NthRoot/4) the function returns kk (dlog and lg2 are uninterpreted: the contract holds for
+// every exponent kk with that property and every NthRoot = 2^n).  One iteration is the Lean
+// theorem dlog_step_cases; that kk is the only such exponent is dlog_unique.
+//@ ghost lg2(x) int
+//@ ghost dlog(g) int
+//@ func Parameters.SolveDiscreteLogGaloisElement
+//@   property C11
+//@   let nr = p.ringQ.SubRings[0].NthRoot
+//@   let n = lg2(nr)
+//@   let E = pow2(n - 3)
+//@   let kk = dlog(galEl)
+//@   requires 0 < len(p.ringQ.SubRings) && 4 <= n && n <= 62 && nr == pow2(n) && E == pow2(n - 3) && pow2(n - 2) == 2 * E
+//@   requires galEl < nr && 0 <= kk && kk < pow2(n - 2) && cong(galEl, pow(GaloisGen, kk), nr)
+//@   ensures k == kk by dlog_step(n, kk, x, galEl, ring.ModExpPow2(GaloisGen, (kk % (E / x)) * x, nr), ring.ModExpPow2(galEl, x, nr)); or_pow2((kk % (E / x)) * x, nr >> 3)
+//@   loop 0 invariant 0 < x && x <= E && E % x == 0 && kuint == (kk % (E / x)) * x
+//@   loop 0 decreases x
+//@   loop 0 lemma dlog_step(n, kk, prev(x), galEl, ring.ModExpPow2(GaloisGen, prev(kuint), nr), ring.ModExpPow2(galEl, prev(x), nr)); or_pow2(prev(kuint), nr >> 3)
+
 // The index table of a Galois element is built lazily by CheckAndGetGaloisKey; the automorphism that
 // follows reads it from the SAME evaluator (property C11: with the key present the operation does
 // not fail).  So on success the evaluator the caller holds has an index map.
